@@ -261,17 +261,23 @@ fn relations(tier: Tier, ellipsoids: &[String]) -> Vec<Relation> {
         let p = Proj { lon_c: lon0, ..p };
         let inputs = lattice(&p, lat_step, lon_step);
         for ellps in ellipsoids {
-            v.push(Relation {
-                key: "lcc: one standard parallel equals two equal standard parallels".into(),
-                def_a: format!("lcc lat_1={lat1} lon_0={lon0} lat_0={lat0} k_0=0.9999 x_0=100 y_0=200 ellps={ellps}"),
-                def_b: format!("lcc lat_1={lat1} lat_2={lat1} lon_0={lon0} lat_0={lat0} k_0=0.9999 x_0=100 y_0=200 ellps={ellps}"),
-                map_in: id(),
-                map_out: id(),
-                inputs: inputs.clone(),
-                tol_abs: 1e-7,
-                tol_rel: 1e-14,
-                both_directions: true,
-            });
+            // with and without an explicit origin latitude (its default must not depend on how the
+            // single parallel is spelled), with and without scale and offsets
+            for origin in [format!(" lat_0={lat0}"), String::new()] {
+                for rest in [" k_0=0.9999 x_0=100 y_0=200", ""] {
+                    v.push(Relation {
+                        key: format!("lcc: one standard parallel equals two equal standard parallels{}", if origin.is_empty() { " (lat_0 omitted)" } else { "" }),
+                        def_a: format!("lcc lat_1={lat1} lon_0={lon0}{origin}{rest} ellps={ellps}"),
+                        def_b: format!("lcc lat_1={lat1} lat_2={lat1} lon_0={lon0}{origin}{rest} ellps={ellps}"),
+                        map_in: id(),
+                        map_out: id(),
+                        inputs: inputs.clone(),
+                        tol_abs: 1e-7,
+                        tol_rel: 1e-14,
+                        both_directions: true,
+                    });
+                }
+            }
         }
     }
     v
